@@ -177,6 +177,7 @@ type c19Svc struct {
 }
 
 func c19RunSvc(o *c19Out, graph map[string][]c19Svc, query string, maxDepth int, tag string) {
+	c19Mark(map[string]any{"op": "resolver.svc", "graph": graph, "query": query, "maxDepth": maxDepth})
 	res := &c19Resolver{docs: map[string]*did.Document{}}
 	urls := map[string]bool{query: true}
 	docs := map[string]any{}
@@ -357,6 +358,11 @@ func TestVerifC19(t *testing.T) {
 		{A: {{"x", ref(A, "x2")}, {"x2", ref(A, "x3")}, {"x3", ref(A, "x4")}, {"x4", ref(A, "x5")}, {"x5", ref(A, "x6")}, {"x6", "https://end"}}}, // chain of 6 in one doc
 		{A: {{"x", "https://first"}, {"x", "https://second"}}},     // duplicate type: first wins
 		{A: {}},
+		// cycles INSIDE one document (the referenced DID is the document at hand): self, 2- and 3-cycles, and one that leaves and returns
+		{A: {{"x", ref(A, "y")}, {"y", ref(A, "x")}}},
+		{A: {{"x", ref(A, "y")}, {"y", ref(A, "z")}, {"z", ref(A, "x")}}},
+		{A: {{"x", ref(A, "y")}, {"y", ref(B, "y")}}, B: {{"y", ref(B, "z")}, {"z", ref(B, "y")}}},
+		{A: {{"x", ref(A, "y")}, {"y", ref(A, "z")}, {"z", "https://end"}}}, // chain of 3 inside one document that ends
 	}
 	for gi, g := range graphs {
 		for _, md := range []int{-1, 0, 1, 2, 5, 6, 7, 1000} {
